@@ -549,7 +549,12 @@ structure ShutdownPrims (σ ε : Type) where
   checkStarted : M σ ε Unit Unit        -- `await self._check_started()`
   isCurrentTask : σ → Bool              -- `self.is_current_task()`
   abort : ε → M σ ε Unit Unit           -- `self.abort(exc)`
-  awaitSimtask : M σ ε Unit Unit        -- `await self._simtask`
+  awaitSimtask : M σ ε Unit Unit        -- `await self._simtask`: a cancellation of the caller is FORWARDED to the task
+  waitSimtask : M σ ε Unit Unit         -- `await asyncio.wait([self._simtask])`: returns when the task is done, never raises
+                                        -- the task's exception; a cancellation of the caller is raised in the caller
+                                        -- only, the task runs on
+  simtaskCancelled : σ → Bool           -- `self._simtask.cancelled()`
+  simtaskException : M σ ε Unit (Option ε)   -- `self._simtask.exception()` (None or the exception the task ended with)
 
 /-- the leaves of `run()` -/
 structure RunPrims (σ ε τ κ : Type) where
@@ -693,11 +698,17 @@ def shutdown_target(api):
         signature='self', is_async=True,
         P='P', prims='ShutdownPrims σ ε', tyvars='{σ ε : Type}', ret_lean='Unit', ret_none='()',
         args=[], ret_type='unit',
-        ignore_re=(r'_logger\.\w+',), awaited=('self._check_started',),
+        ignore_re=(r'_logger\.\w+',), awaited=('self._check_started', 'asyncio.wait'),
         exceptions=('EdzedInvalidState',),
         mk_cancelled='({P}.mkCancelled {m})',
-        atoms={'self.is_current_task()': ('P.isCurrentTask st', 'bool')},
-        effect_texts=[('self._check_started()', '{P}.checkStarted', 'unit')],
+        atoms={'self.is_current_task()': ('P.isCurrentTask st', 'bool'),
+               'self._simtask.cancelled()': ('P.simtaskCancelled st', 'bool')},
+        # `await asyncio.wait([self._simtask])` and `await self._simtask` are DIFFERENT primitives: they differ in
+        # what a cancellation of the caller does to the simulation task and in who raises the task's exception
+        # (an un-awaited asyncio.wait(...) and any other argument list are refused)
+        effect_texts=[('self._check_started()', '{P}.checkStarted', 'unit'),
+                      ('asyncio.wait([self._simtask])', '{P}.waitSimtask', 'unit'),
+                      ('self._simtask.exception()', '{P}.simtaskException', 'optexc')],
         effects=[('self.abort', [('ty', 'exc')], '{P}.abort ({a[0]})', 'unit')],
         await_paths={'self._simtask': ('{P}.awaitSimtask', 'unit')},
         catchable=('asyncio.CancelledError',),
